@@ -240,6 +240,35 @@ def linear_fns(cls):
     return out
 
 
+DTREE_CPP = 'src/wlearner/dtree.cpp'
+PAIR = r'std::pair<unsigned long, nano::tensor_t<nano::tensor_vector_storage_t, long, 1>\s*>'
+DT_TYPES = [(r'^nano::dataset_t$', 'struct nv_dataset'), (r'^nano::cluster_t$', 'struct nv_clu'),
+            (r'^nano::indices_t$|^nano::tensor_t<nano::tensor_vector_storage_t, long, 1>$', 'struct nv_ixs'),
+            (r'^nano::indices_cmap_t$|^nano::tensor_t<nano::tensor_carray_storage_t, long, 1>$', 'struct nv_t1i'),
+            (r'^std::deque<' + PAIR, 'struct nv_dq'), (r'^' + PAIR + r'$|^std::deque<.*>::value_type$', 'struct nv_split'),
+            (r'^nano::dtree_node_t$|^std::vector<nano::dtree_node_t>::value_type$|__alloc_traits<std::allocator<nano::dtree_node_t>, nano::dtree_node_t>::value_type$', 'struct nv_node'),
+            (r'^nano::dtree_nodes_t$|^std::vector<nano::dtree_node_t>$', 'struct nv_nodes'),
+            (r'^nano::tensor4d_t$|^nano::tensor4d_map_t$|tensor_t<nano::tensor_(marray|vector)_storage_t, double, 4>', 'struct nv_t4'),
+            (ROW, 'struct nv_row')]
+DT_CALLS = [(r'^operator\[\]\|.*\|std::vector<nano::dtree_node_t', '(*nv_node_at({&0}, {1}))'),
+            (r'^split\|nano::cluster_t \(const nano::dataset_t &, const nano::indices_t &, nano::tensor_size_t, nano::scalar_t\)',
+             'nv_dt_stump_split({&0}, {&1}, {2}, {3}, self)'),
+            (r'^ctor\|nano::cluster_t\|void \(nano::tensor_size_t, nano::tensor_size_t\)', 'nv_clu_make({0}, {1})')]
+DT_MEMBERS = [(r'^size\|std::vector<nano::dtree_node_t', '{self}->n'),
+              (r'^size\|nano::tensor_base_t<double, 4.*\|#0$', 'nv_t4_size'),
+              (r'^samples\|nano::dataset_t', 'nv_dataset_samples'),
+              (r'^emplace_back\|std::deque<', 'nv_dq_push({self}, {0}, {&1}, self)'), (r'^empty\|std::deque<', '({self}->n == 0)'),
+              (r'^front\|std::deque<', 'nv_dq_front({self}, self)'), (r'^pop_front\|std::deque<', 'nv_dq_pop'),
+              (r'^samples\|nano::cluster_t', '{self}->samples'), (r'^groups\|nano::cluster_t', '{self}->groups'),
+              (r'^group\|nano::cluster_t', 'nv_clu_group'), (r'^indices\|nano::cluster_t', 'nv_clu_indices'),
+              (r'^assign\|nano::cluster_t', 'nv_clu_assign({self}, {0}, {1}, self)')]
+
+
+def dtree_fns():
+    k = dict(self_struct='struct nv_dtree', types=DT_TYPES, calls=DT_CALLS, members=DT_MEMBERS)
+    return dict(do_split=Fn('dtree_do_split', DTREE_CPP, 'do_split', flt='dtree_wlearner_t::do_split', **k))
+
+
 def iter_loop_hook(code, elem):
     """iterator.loop(samples, feature, callback): the lambda is not translated; the overload that was resolved (by the
     std::function parameter type of the callee) must be the one for the expected kind of feature values"""
@@ -312,6 +341,8 @@ def build(tier):
         f = linear_fns(cls)
         targets.append(Target(f'{cls}_do_predict', f['predict'], LNH))
         targets.append(Target(f'{cls}_do_split', f['split'], LNH))
+    DH = 'specs/C10/dtree.h'
+    targets.append(Target('dtree_do_split', [dtree_fns()['do_split']], DH))
     MH = 'specs/C10/trymerge.h'
     t = try_merge_fns()
     targets.append(Target('base_try_merge', [t['base']], MH))
@@ -354,3 +385,27 @@ def build(tier):
         ],
         'trusted': [],
     }
+
+
+_REPLAY = {}
+
+
+def replay(rp):
+    """dtree_do_split.postcondition.7 (one split group per leaf table): the verifier's counterexample is the input class
+    "m_tables.size() != m_tables.size<0>()", i.e. a target with more than one output.  Replayed on the real library: an
+    in-memory datasource with a K-class target, a real dtree_wlearner_t fitted on it, the public split().  Other
+    targets have no native driver."""
+    import replaylib
+    out = {'reproduced': False, 'runs': []}
+    ids = [fo['id'] for fo in rp['failed_obligations']]
+    if rp['target'] != 'dtree_do_split' or not any(i.endswith('dtree_do_split.postcondition.7') for i in ids):
+        out['note'] = 'no native driver for this obligation: the replay file carries the verifier output only'
+        return out
+    if 'exe' not in _REPLAY:
+        _REPLAY['exe'] = replaylib.build_with_library('replay/C10_replay.cpp', 'C10_replay')
+    for n, k in ((40, 3), (12, 2)):
+        rc, so, se = replaylib.run_driver(_REPLAY['exe'], [n, k])
+        out['runs'].append({'samples': n, 'classes': k, 'exit': rc, 'output': so.strip()[:2000]})
+        if rc == 1:
+            out['reproduced'] = True
+    return out
